@@ -30,11 +30,17 @@ def live(seed, k, tier):
     users = [s.key("A1"), s.key("A2")]
     h = scen.live_preamble(s, users, fund_peg=500 * 10**8)
     s.convert(h, "A1", "PEG", 10**9, "pUSD"); s.grade(h); h += 1
+    # the first blocks of every era go through the cases where the two records lie on either side of a threshold of the rule
+    # (band width chosen by the SPR rate at 100000 in the first era), then seeded choices
+    # (exact edges whose float product is not exact, e.g. 100100 against 100000 * 1.001, are left out: see band_cases)
+    straddle = {"v0": [(100997, 99999), (99001, 100000), (100099, 100000), (99000, 99999), (100101, 100000)],
+                "v10": [(9 * 10**7 + 1, 10**8), (11 * 10**7 + 1, 10**8)], "v25": [(3 * 10**7, 4 * 10**7), (5 * 10**7 + 1, 4 * 10**7)]}
     while h < 40:
         era = "v0" if h < 16 else ("v10" if h < 28 else "v25")
-        c = rnd.choice(["both", "both", "both", "opr", "spr", "none", "few"])
+        forced = straddle[era].pop(0) if straddle[era] else None
+        c = "both" if forced else rnd.choice(["both", "both", "both", "opr", "spr", "none", "few"])
         if c == "both":
-            o, sp = rnd.choice(band_cases(era))
+            o, sp = forced or rnd.choice(band_cases(era))
             asset = rnd.choice(["pXBT", "pDCR", "PEG"])
             s.grade(h, rates={asset: o}, spr_rates={asset: sp})
             inband = {"v0": None, "v10": None, "v25": None}
